@@ -460,6 +460,62 @@ def run(rep, tier, seed):
                           f"{what} - the device receives a command that lacks arguments the caller supplied",
                           {"kind": "impl-case", "method": name, "kwargs": {k: repr(v) for k, v in kwargs.items()}, "api_version": [1, 10], "refused": victim})
 
+    # ---- the published parameter order (vlib/public_signatures.json, recorded from the pinned tree): a call that passes its arguments
+    # by position writes the same request as the call that passes them by keyword
+    import json as _json
+    published = _json.loads((common.VERIF / "vlib" / "public_signatures.json").read_text())
+
+    def positional_sweep(loop):
+        async def inner():
+            out = []
+            net = simnet.Net(loop)
+            with net.patched():
+                for ver in ((1, 10), (1, 0)):
+                    cli, tr = await simnet.connected_client(loop, net, api=ver)
+                    for name in names:
+                        order = [pn for pn, kind in published.get(name, []) if kind == "POSITIONAL_OR_KEYWORD"]
+                        sig = inspect.signature(getattr(APIClient, name))
+                        if not order or set(order) - set(sig.parameters):
+                            continue
+                        vals = {}
+                        for pn in order:
+                            p = sig.parameters[pn]
+                            if pn == "key":
+                                vals[pn] = 5
+                            elif pn in ("transition_length", "flash_length"):
+                                vals[pn] = 0.5
+                            elif str(p.annotation).replace(" | None", "") == "bool":
+                                vals[pn] = True
+                            else:
+                                vals[pn] = values_for(str(p.annotation), rng)[1]
+                        for upto in range(1, len(order) + 1):
+                            # the first `upto` parameters by position, each optional one before the last left out (None) in turn
+                            for skip in [None] + [q for q in order[1:upto - 1] if sig.parameters[q].default is None]:
+                                args = [None if q == skip else vals[q] for q in order[:upto]]
+                                kwargs = {q: vals[q] for q in order[:upto] if q != skip}
+                                res = []
+                                for call in (lambda: getattr(cli, name)(*args), lambda: getattr(cli, name)(**kwargs)):
+                                    n0 = len(tr.writes)
+                                    try:
+                                        call()
+                                        res.append([d for _, d in tr.writes[n0:]])
+                                    except Exception as e:  # noqa: BLE001
+                                        res.append("raised " + type(e).__name__)
+                                if res[0] != res[1]:
+                                    out.append((name, ver, args, kwargs, res))
+                    await cli.disconnect(force=True)
+                    await simnet.drain(loop)
+            return out
+        return inner()
+    diffs = simnet.run(positional_sweep)
+    rep.case(("positional-calls",), True, sample={"positional_calls_differing": len(diffs)})
+    rep.bump("probe:positional-calls")
+    if diffs:
+        name, ver, args, kwargs, res = diffs[0]
+        show = lambda r: r if isinstance(r, str) else [x.hex()[:60] for x in r]  # noqa: E731
+        rep.violation(f"C15/positional:{name}", f"{name}{tuple(args)} on API {ver} (arguments in the published parameter order) wrote {show(res[0])}, the same call by keyword "
+                      f"{kwargs} wrote {show(res[1])}; {len(diffs)} call(s) differ", {"kind": "impl-case", "method": name, "kwargs": {k: repr(v) for k, v in kwargs.items()}, "api_version": list(ver), "positional": True})
+
     # ---- commands issued from inside a state callback, in reads that end in the middle of the next frame, and the ordinary commands
     # that follow: each is on the wire, with exactly its arguments, when the call returns
     def callback_sweep(loop):
